@@ -40,12 +40,15 @@ def partition_cases(ctx, ops, cap, tag="part"):
     if cap and len(raw) > cap:
         keep = []
         for r in raw:
-            if rng.n(len(raw)) < cap:
+            if r["pc"] == 14 or rng.n(len(raw)) < cap:      # the (small) jump-target partition is always kept whole
                 keep.append(r)
         raw = keep
     cases = []
     for i, r in enumerate(raw):
-        st = pvmgen.base_state(rng, gas=rng.pick([1, 2, 2, 3]))
+        st = pvmgen.base_state(rng, gas=rng.pick([1, 2, 2, 3]) if r["pc"] != 14 else 6)
+        if r["pc"] == 14:
+            st["regs"][5] = [0] * 8          # jump partition: r5 = 0 so that r5 + imm selects the jump-table entry
+            st["regs"][4] = st["regs"][4]
         st.update({"prog": r["prog"], "pc": r["pc"], "id": "p%d" % i,
                    "tag": "part:%d:%d:%d:%d:%s" % (r["op"], r["b1"], r["b2"], r["l"], r["pos"]), "fx": [pvmgen.le(pvmgen.rand_u64(rng))]})
         if rng.n(3) == 0:
